@@ -333,16 +333,21 @@ theorem gridKeys_nodup (g : Grid) (hg : g.WF) : (gridKeys g).Nodup := by
 
 /-! ### block level geometry over `ℝ` -/
 
+/-- the block index before the clamp -/
+noncomputable def rawBlock (n : Nat) (p a s : ℝ) : Nat := Trunc.toNat ((OfInt.ofNat n : ℝ) * (p - a) / s)
+
+theorem blockIndex_eq (n : Nat) (p a s : ℝ) : blockIndex n p a s = min (rawBlock n p a s) (n - 1) := rfl
+
 /-- in exact arithmetic the block index of a position inside the box is in range and the block's
 box contains the position -/
-theorem blockIndex_real (n : Nat) (hn : 0 < n) (p a s : ℝ) (hs : 0 < s) (h1 : a ≤ p) (h2 : p < a + s) :
-    blockIndex n p a s < n ∧
-      a + (OfInt.ofNat (blockIndex n p a s) : ℝ) * (s / OfInt.ofNat n) ≤ p ∧
-      p < a + (OfInt.ofNat (blockIndex n p a s) : ℝ) * (s / OfInt.ofNat n) + s / OfInt.ofNat n := by
+theorem rawBlock_real (n : Nat) (hn : 0 < n) (p a s : ℝ) (hs : 0 < s) (h1 : a ≤ p) (h2 : p < a + s) :
+    rawBlock n p a s < n ∧
+      a + (OfInt.ofNat (rawBlock n p a s) : ℝ) * (s / OfInt.ofNat n) ≤ p ∧
+      p < a + (OfInt.ofNat (rawBlock n p a s) : ℝ) * (s / OfInt.ofNat n) + s / OfInt.ofNat n := by
   have hn' : (0 : ℝ) < n := by exact_mod_cast hn
   have hq : 0 ≤ (n : ℝ) * (p - a) / s := div_nonneg (mul_nonneg hn'.le (by linarith)) hs.le
   simp only [ofNat_real]
-  unfold blockIndex
+  unfold rawBlock
   simp only [ofNat_real]
   obtain ⟨l1, l2⟩ := toNat_le _ hq
   set i := Trunc.toNat ((n : ℝ) * (p - a) / s) with hi
@@ -364,16 +369,16 @@ theorem blockIndex_real (n : Nat) (hn : 0 < n) (p a s : ℝ) (hs : 0 < s) (h1 : 
     rw [← sub_pos, e]; exact div_pos (by linarith) hn'
 
 /-- a position lies in the box of one block only -/
-theorem blockIndex_unique (n : Nat) (hn : 0 < n) (p a s : ℝ) (hs : 0 < s) (j : Nat)
+theorem rawBlock_unique (n : Nat) (hn : 0 < n) (p a s : ℝ) (hs : 0 < s) (j : Nat)
     (h1 : a + (j : ℝ) * (s / n) ≤ p) (h2 : p < a + (j : ℝ) * (s / n) + s / n) :
-    blockIndex n p a s = j := by
+    rawBlock n p a s = j := by
   have hn' : (0 : ℝ) < n := by exact_mod_cast hn
   have hj : (0 : ℝ) ≤ j := by exact_mod_cast Nat.zero_le j
   have hpa : 0 ≤ p - a := by
     have : 0 ≤ (j : ℝ) * (s / n) := mul_nonneg hj (div_pos hs hn').le
     linarith
   have hq : 0 ≤ (n : ℝ) * (p - a) / s := div_nonneg (mul_nonneg hn'.le hpa) hs.le
-  unfold blockIndex
+  unfold rawBlock
   simp only [ofNat_real]
   rw [toNat_eq_iff _ hq]
   have e1 : (j : ℝ) * (s / n) = (j : ℝ) * s / n := by ring
@@ -387,6 +392,30 @@ theorem blockIndex_unique (n : Nat) (hn : 0 < n) (p a s : ℝ) (hs : 0 < s) (j :
       have : ((j : ℝ) + 1) * s / n = (j : ℝ) * s / n + s / n := by ring
       linarith
     rw [lt_div_iff₀ hn'] at this; linarith
+
+/-- in exact arithmetic the clamp is inactive for positions inside the box -/
+theorem blockIndex_real (n : Nat) (hn : 0 < n) (p a s : ℝ) (hs : 0 < s) (h1 : a ≤ p) (h2 : p < a + s) :
+    blockIndex n p a s < n ∧
+      a + (OfInt.ofNat (blockIndex n p a s) : ℝ) * (s / OfInt.ofNat n) ≤ p ∧
+      p < a + (OfInt.ofNat (blockIndex n p a s) : ℝ) * (s / OfInt.ofNat n) + s / OfInt.ofNat n := by
+  have h := rawBlock_real n hn p a s hs h1 h2
+  have e : blockIndex n p a s = rawBlock n p a s := by rw [blockIndex_eq]; have := h.1; omega
+  rw [e]; exact h
+
+theorem blockIndex_unique (n : Nat) (hn : 0 < n) (p a s : ℝ) (hs : 0 < s) (j : Nat)
+    (hin1 : a ≤ p) (hin2 : p < a + s)
+    (h1 : a + (j : ℝ) * (s / n) ≤ p) (h2 : p < a + (j : ℝ) * (s / n) + s / n) :
+    blockIndex n p a s = j := by
+  have h := rawBlock_unique n hn p a s hs j h1 h2
+  have hlt := (rawBlock_real n hn p a s hs hin1 hin2).1
+  rw [blockIndex_eq, h]; rw [h] at hlt; omega
+
+/-- the clamp keeps the block index in range for every numeric type and every position -/
+theorem blockIndex_lt {α : Type} [Sub α] [Mul α] [Div α] [GridNum.Trunc α] [OfInt α] (n : Nat) (hn : 0 < n)
+    (p a s : α) : blockIndex n p a s < n := by
+  unfold blockIndex
+  have := Nat.min_le_right (GridNum.Trunc.toNat ((OfInt.ofNat n : α) * (p - a) / s)) (n - 1)
+  omega
 
 /-- volumes of all leaves of all blocks -/
 noncomputable def gridVolSum (g : Grid) (b : Box3 ℝ) : ℝ :=
@@ -402,5 +431,68 @@ theorem gridVolSum_eq (g : Grid) (b : Box3 ℝ) (hx : 0 < g.nx) (hy : 0 < g.ny) 
   simp only [volSum_eq, volume, blockBox, ofNat_real, List.map_const', List.sum_replicate,
     List.length_range, nsmul_eq_mul]
   field_simp
+
+/-! ### the descent is total (every numeric type, every position) -/
+
+section total
+variable {α : Type} [Add α] [Sub α] [Mul α] [Div α] [OfScientific α] [GridNum.Trunc α] [OfInt α]
+
+theorem mem_leafKeys_node (c : Fin 8 → Tree) (L pre k : Nat) (i : Fin 8)
+    (h : k ∈ leafKeys (c i) (L + 1) (pre + i.val * 2 ^ (3 * L))) : k ∈ leafKeys (.node c) L pre := by
+  simp only [leafKeys, List.mem_append]
+  match i, h with
+  | ⟨0, _⟩, h => exact Or.inl (Or.inl (Or.inl (Or.inl (Or.inl (Or.inl (Or.inl h))))))
+  | ⟨1, _⟩, h => exact Or.inl (Or.inl (Or.inl (Or.inl (Or.inl (Or.inl (Or.inr h))))))
+  | ⟨2, _⟩, h => exact Or.inl (Or.inl (Or.inl (Or.inl (Or.inl (Or.inr h)))))
+  | ⟨3, _⟩, h => exact Or.inl (Or.inl (Or.inl (Or.inl (Or.inr h))))
+  | ⟨4, _⟩, h => exact Or.inl (Or.inl (Or.inl (Or.inr h)))
+  | ⟨5, _⟩, h => exact Or.inl (Or.inl (Or.inr h))
+  | ⟨6, _⟩, h => exact Or.inl (Or.inr h)
+  | ⟨7, _⟩, h => exact Or.inr h
+
+theorem descend_node_gen (c : Fin 8 → Tree) (L : Nat) (p : V3 α) (b : Box3 α) (i : Fin 8) (ix iy iz : Nat)
+    (hx : childIndex p.x b.ax b.sx = ix) (hy : childIndex p.y b.ay b.sy = iy)
+    (hz : childIndex p.z b.az b.sz = iz) (hi : (4 * ix + 2 * iy + iz) % 8 = i.val) :
+    descend (.node c) L p b =
+      ((4 * ix + 2 * iy + iz) * 2 ^ (3 * L) + (descend (c i) (L + 1) p (childBox b ix iy iz)).1,
+        (descend (c i) (L + 1) p (childBox b ix iy iz)).2) := by
+  subst hx hy hz
+  obtain rfl : i = ⟨_, Nat.mod_lt _ (by decide)⟩ := Fin.ext hi.symm
+  simp only [descend]
+
+/-- whatever the arithmetic does, the descent returns the key of a leaf of the tree -/
+theorem descend_mem (t : Tree) : ∀ (L pre : Nat) (p : V3 α) (b : Box3 α),
+    pre + (descend t L p b).1 ∈ leafKeys t L pre := by
+  induction t with
+  | leaf => intro L pre p b; simp [descend, leafKeys]
+  | node c ih =>
+    intro L pre p b
+    have hx := childIndex_le_one p.x b.ax b.sx
+    have hy := childIndex_le_one p.y b.ay b.sy
+    have hz := childIndex_le_one p.z b.az b.sz
+    have hcell : (4 * childIndex p.x b.ax b.sx + 2 * childIndex p.y b.ay b.sy + childIndex p.z b.az b.sz) % 8
+        = 4 * childIndex p.x b.ax b.sx + 2 * childIndex p.y b.ay b.sy + childIndex p.z b.az b.sz := by omega
+    let i : Fin 8 := ⟨(4 * childIndex p.x b.ax b.sx + 2 * childIndex p.y b.ay b.sy + childIndex p.z b.az b.sz) % 8,
+      Nat.mod_lt _ (by decide)⟩
+    have := ih i (L + 1) (pre + i.val * 2 ^ (3 * L)) p
+      (childBox b (childIndex p.x b.ax b.sx) (childIndex p.y b.ay b.sy) (childIndex p.z b.az b.sz))
+    apply mem_leafKeys_node c L pre _ i
+    rw [descend_node_gen c L p b i _ _ _ rfl rfl rfl rfl]
+    have hi : i.val = 4 * childIndex p.x b.ax b.sx + 2 * childIndex p.y b.ay b.sy + childIndex p.z b.az b.sz := hcell
+    simp only
+    rw [← Nat.add_assoc, ← hi]; exact this
+
+theorem gridLocate_mem (g : Grid) (hx : 0 < g.nx) (hy : 0 < g.ny) (hz : 0 < g.nz) (b : Box3 α) (p : V3 α) :
+    (gridLocate g b p).1 ∈ gridKeys g := by
+  have bx := blockIndex_lt g.nx hx p.x b.ax b.sx
+  have by' := blockIndex_lt g.ny hy p.y b.ay b.sy
+  have bz := blockIndex_lt g.nz hz p.z b.az b.sz
+  simp only [gridKeys, slabKeys, rowKeys, blockKeys, List.mem_flatMap, List.mem_range, List.mem_map]
+  refine ⟨_, bx, _, by', _, bz, _, ?_, rfl⟩
+  have := descend_mem (g.block (blockIndex g.nx p.x b.ax b.sx) (blockIndex g.ny p.y b.ay b.sy)
+    (blockIndex g.nz p.z b.az b.sz)) 0 0 p (blockBox g b (blockIndex g.nx p.x b.ax b.sx)
+    (blockIndex g.ny p.y b.ay b.sy) (blockIndex g.nz p.z b.az b.sz))
+  simpa using this
+end total
 
 end CMacVerif.AMR
